@@ -680,6 +680,9 @@ class Common:
 
     def add_connection_hints(self, hints):
         for h in hints:  # hint structs
+            if not isinstance(h, dict):
+                log.msg(f"invalid hint: {h!r}")
+                continue
             hint_type = h.get("type", "")
             if hint_type in ["direct-tcp-v1", "tor-tcp-v1"]:
                 dh = parse_tcp_v1_hint(h)
@@ -691,7 +694,11 @@ class Common:
                 # them as separate relays, instead of merging them all
                 # together like this.
                 relay_hints = []
-                for rhs in h.get("hints", []):
+                sub_hints = h.get("hints", [])
+                if not isinstance(sub_hints, list):
+                    log.msg(f"invalid relay hint: {h!r}")
+                    sub_hints = []
+                for rhs in sub_hints:
                     h = parse_tcp_v1_hint(rhs)
                     if h:
                         relay_hints.append(h)
